@@ -3289,6 +3289,8 @@ class __implementations__:
         arg2 = Array.cast(arg2)
         if not arg1.ndim or not arg2.ndim:
             raise ValueError('cannot contract zero-dimensional array')
+        if arg1.shape[-1] != arg2.shape[0 if arg2.ndim == 1 else -2]:
+            raise ValueError(f'shapes {arg1.shape} and {arg2.shape} are not aligned')
         if arg2.ndim == 1:
             return (arg1 * arg2).sum(-1)
         elif arg1.ndim == 1:
